@@ -4,40 +4,27 @@ from __future__ import annotations
 import ast
 from typing import Any
 
-from ..astutil import (ERROR_CLASSES, Locals, call_name, cfg_of, constructs_error, error_names, names_in, norm, receivers, resolved_text,
-                       returns_error, role_anon, short, stmt_calls, where)
+from jinja2 import nodes as jnodes
+
+from .. import tplq
+from ..astutil import (ERROR_CLASSES, Locals, anon, call_name, cfg_of, constructs_error, error_names, local_names, names_in, norm, receivers,
+                       region, returns_error, role_anon, short, where)
+from ..jinja_interp import expr_text
 from ..cfg import CFG, walk_own
 from ..core import PKG, Report
 from .registries import check_module_files, check_registries
 
 LEVEL = ("error discipline and accounting over all paths: no value whose static type includes a ParseError/PropertyError is "
-         "discarded; inside every loop over a document collection each `continue` / early exit is preceded, in the same iteration, "
-         "by an error record for the skipped item (or is a frozen benign case); diagnostics carry method+path / reference; keyed "
-         "registries detect collisions; every operation is attached to a provably non-empty list of collections; the error lists "
-         "are concatenated up to the CLI; the method list equals the Operation fields of PathItem.")
+         "discarded; every path through one iteration of a loop over items of the document (operations, component schemas, response "
+         "statuses, request media types - found by what the loop iterates) records a diagnostic or stores something derived from the "
+         "item, and a path on which a value is known to be an error records it; diagnostics carry method+path / reference; keyed "
+         "registries detect collisions (test and store on the same registry state); removed component schemas are named; every parsed "
+         "response gets a status branch in the template; every operation is attached to a provably non-empty list of collections; the "
+         "error lists are concatenated up to the CLI; the method list equals the Operation fields of PathItem.")
 
-# skips that do not lose a listed item (operations, component schemas, response statuses, request media types)
-# guards are written with locals replaced by their role (astutil.role_anon): the table does not depend on how locals are spelled
-BENIGN_SKIPS = {
-    ("parser.openapi.EndpointCollection.from_data", "<=getattr()> is None"): "the path item has no operation for this method",
-    ("parser.openapi.Endpoint.add_parameters", "_.param_schema is None"):
-        "a parameter with `content` instead of `schema` is skipped without a diagnostic; parameters are not among the items the "
-        "property enumerates (recorded as an observation)",
-    ("parser.openapi.Endpoint.add_parameters", "any((<each _[_.param_in]> for <each _[_.param_in]> in _[_.param_in] if <each _[_.param_in]>.name == _.name))"):
-        "a path-item parameter overridden by an operation-level parameter of the same name and location",
-    ("parser.properties.model_property.ModelProperty.build", "isinstance(<each roots>, utils.ClassName)"): "class-name roots carry no reference dependency",
-    ("parser.properties.enum_property.EnumProperty.values_from_list", "isinstance(<each enumerate(values)[1]>, int)"): "the integer member has just been stored",
-}
-DOC_LOOPS = {  # function -> substrings of the loop's iterable *resolved through the locals it is bound from* (astutil.resolved_text)
-    "parser.openapi.EndpointCollection.from_data": ("data.items()", "['get', 'put'"),
-    "parser.openapi.Endpoint._add_responses": ("data.items()",),
-    "parser.openapi.Endpoint.add_parameters": ("data.parameters",),
-    "parser.openapi.Endpoint.from_data": ("body_from_data(",),
-    "parser.bodies.body_from_data": (".content",),
-    "parser.properties._create_schemas": ("components.items()",),
-    "parser.properties._process_models": ("schemas.models_to_process",),
-    "parser.properties.build_parameters": ("components.items()",),
-}
+# wrappers that hand the elements of their argument(s) on unchanged
+_ELEMENTWISE = {"enumerate", "sorted", "list", "tuple", "reversed", "chain", "itertools.chain", "iter"}
+_VIEWS = {"items", "values", "keys", "get", "copy"}
 
 
 def run(rep: Report, ctx: Any) -> str:
@@ -45,10 +32,17 @@ def run(rep: Report, ctx: Any) -> str:
     cfgs: dict[str, CFG] = {}
     rep.rule("R07.1", "no error value is discarded: results of calls that can return ParseError/PropertyError/ParameterError are "
                       "never dropped as expression statements nor assigned to a name that is never read")
-    rep.rule("R07.2", "every `continue` / loop exit inside a loop over a document collection is preceded in the same iteration by an "
-                      "error record (append of an error, or return of one), or is a frozen benign skip")
+    rep.rule("R07.2", "every path through one iteration of a loop over items of the document records a diagnostic (append / return of an "
+                      "error) or stores something derived from the item where it outlives the iteration; a path on which a value is known to "
+                      "be an error records it; leaving the loop early needs a diagnostic; an empty slot (field selected by the loop variable is "
+                      "None) is no item.  Items the property does not enumerate (parameters) only carry the error clause")
     rep.rule("R07.3", "diagnostics identify the item: endpoint errors get a header with METHOD and path on both routes; schema errors "
                       "carry the reference path")
+    rep.rule("R07.7", "a component schema removed from the registry of references (del / pop on classes_by_reference) is named in a "
+                      "diagnostic: on every path to the removal the removed key is written into the text of an error (or an error built "
+                      "from it is recorded)")
+    rep.rule("R07.8", "every response kept by the parser gets its status branch in the generated module: inside the loop over "
+                      "endpoint.responses the status value is emitted under every assignment of the template conditions")
     rep.rule("R07.5", "aggregation reaches the CLI: collection errors + schema/parameter errors + project errors")
     rep.rule("R07.6", "every operation is attached to a provably non-empty list of collections; the method list is exhaustive")
 
@@ -86,55 +80,45 @@ def run(rep: Report, ctx: Any) -> str:
     rep.floor("error_returning_call_sites", n_calls, 30)
 
     # ---- R07.2 -----------------------------------------------------------------------------------------------------------
-    n_skips = 0
-    done_skips: set[int] = set()
-    for f in ix.all_functions:
+    n_ends = 0
+    n_loops = 0
+    kinds_seen: set[str] = set()
+    for f, loops in sorted(document_loops(ix).items(), key=lambda kv: kv[0].qual):
         sf = short(f)
-        if sf not in DOC_LOOPS:
-            continue
-        cfg = cfg_of(f, cfgs)
-        errs = error_names(f.node)
-        def is_doc_loop(n: ast.AST, f: Any = f, sf: str = sf) -> bool:
-            return isinstance(n, ast.For) and any(p in resolved_text(n.iter, f.node) for p in DOC_LOOPS[sf])
-
-        loops = [n for n in ast.walk(f.node) if is_doc_loop(n)]
-        # collections an item is recorded into, one record each: a local bound to a comprehension of setdefault(...) results
-        fan_out = set(Locals(f.node).bound_from(lambda v: ".setdefault(" in v and v.startswith("["), "assign"))
-        rep.check(bool(loops), "R07.2", f"{sf}::loops-found", "loops over the document collection not found", where(f, f.node))
-        for lp in loops:
-            inner_loops = [x for x in ast.walk(lp) if isinstance(x, (ast.For, ast.While)) and x is not lp]
-            for st in ast.walk(lp):
-                if not isinstance(st, (ast.Continue, ast.Break)) or id(st) in done_skips:
-                    continue
-                done_skips.add(id(st))
-                if any(any(y is st for y in ast.walk(il)) for il in inner_loops if not is_doc_loop(il)):
-                    continue
-                n_skips += 1
-                guard = _innermost_if(lp, st)
+        an = _Iteration(f, loops)
+        an.helpers = {g.name: g for g in region(ix, f, depth=1) if g is not f}
+        for lp, kind_of_item in loops.items():
+            n_loops += 1
+            kinds_seen.add(kind_of_item)
+            enumerated = kind_of_item in ENUMERATED
+            for end, states in an.run(lp):
+                n_ends += 1
+                kind = {ast.Continue: "continue", ast.Break: "break", ast.Return: "return"}.get(type(end), "end of body")
+                guard = _innermost_if(lp, end) if end is not lp else None
                 gtxt = role_anon(guard.test, f.node) if guard is not None else ""
-                key = f"{sf}::{'continue' if isinstance(st, ast.Continue) else 'break'} under [{gtxt[:70]}]"
-                if (sf, gtxt) in BENIGN_SKIPS:
-                    rep.ok("R07.2", key, "frozen benign skip", BENIGN_SKIPS[(sf, gtxt)], nontrivial=False)
-                    continue
-                # some statement recording an error precedes the skip on every path from the loop head (same iteration)
-                def records(n: object) -> bool:
-                    if not isinstance(n, ast.stmt):
-                        return False
-                    if isinstance(n, ast.For) and n is not lp and norm(n.iter) in fan_out:
-                        # one record per collection the operation belongs to (non-emptiness of that list is R07.6)
-                        return any(records(s) for s in n.body)
-                    for c in walk_own(n):
-                        if isinstance(c, ast.Call) and isinstance(c.func, ast.Attribute) and c.func.attr in ("append", "extend") and c.args:
-                            a0 = c.args[0]
-                            if constructs_error(a0) or (isinstance(a0, ast.Name) and a0.id in errs) or \
-                                    (isinstance(a0, ast.Tuple) and any(isinstance(x, ast.Name) and x.id in errs for x in a0.elts)):
-                                return True
-                    return False
-
-                ok = cfg.every_path_passes(lp, st, records)
-                rep.check(ok, "R07.2", key, "an item of the document is skipped on a path that records no diagnostic for it", where(f, st),
-                          lhs=gtxt[:80], rhs="preceded by errors.append(<error>) in the same iteration")
-    rep.floor("loop_skips", n_skips, 14)
+                key = f"{sf}::{kind} under [{gtxt[:70]}]" if end is not lp else f"{sf}::end of body [for _ in {role_anon(lp.iter, f.node)[:60]}]"
+                lost = [s_ for s_ in states if s_.pend]
+                # leaving the loop (break / return of a non-error) abandons the items not yet visited: only a diagnostic accounts for them
+                leaves = isinstance(end, (ast.Break, ast.Return))
+                silent = [s_ for s_ in states if not s_.pend and not (s_.rec or ((s_.keep or s_.absent) and not leaves))]
+                if lost:
+                    rep.fail("R07.2", key, "a value known to be an error on this path is neither recorded nor returned before the iteration ends",
+                             where(f, end), lhs=gtxt[:80], rhs="errors.append(<error>) / return <error> on every such path")
+                elif silent and not enumerated:
+                    rep.ok("R07.2", key, "not an enumerated item", f"{kind_of_item}: not among the items the property enumerates "
+                                                                   "(operations, component schemas, response statuses, request media types)", nontrivial=False)
+                elif silent:
+                    rep.fail("R07.2", key, f"an item of the document ({kind_of_item}) is skipped on a path that neither keeps anything derived "
+                                           "from it nor records a diagnostic for it", where(f, end), lhs=gtxt[:80],
+                             rhs="on every path of the iteration: a diagnostic is recorded, or the item's result is stored")
+                elif all(s_.absent and not (s_.rec or s_.keep) for s_ in states):
+                    rep.ok("R07.2", key, "empty slot", "the loop variable selects a field of the document object and that field is None: "
+                                                       "there is no item", nontrivial=False)
+                else:
+                    rep.ok("R07.2", key, gtxt[:80], "every path records a diagnostic or keeps the item")
+    rep.floor("document_loops", n_loops, 8)
+    rep.floor("loop_skips", n_ends, 14)
+    rep.require(set(ENUMERATED) <= kinds_seen, f"a loop over each kind of item the property enumerates {ENUMERATED}; found {sorted(kinds_seen)}")
     rep.observe("Endpoint.add_parameters: a parameter without `schema` (e.g. with `content`) is skipped without a diagnostic")
 
     # ---- R07.3 ---------------------------------------------------------------------------------------------------------------
@@ -155,6 +139,74 @@ def run(rep: Report, ctx: Any) -> str:
     # ---- R07.4 -------------------------------------------------------------------------------------------------------------------
     check_registries(rep, ctx, "R07.4")
     check_module_files(rep, ctx, "R07.4")
+
+    # ---- R07.7 ---------------------------------------------------------------------------------------------------------------------
+    n_removed = 0
+    for f in ix.all_functions:
+        if not f.module.name.startswith(f"{PKG}.parser"):
+            continue
+        removals = _removals(f.node, ACCOUNTED_REGISTRIES)
+        if not removals:
+            continue
+        cfg = cfg_of(f, cfgs)
+        errs = error_names(f.node) | {x.arg for x in [*f.node.args.posonlyargs, *f.node.args.args, *f.node.args.kwonlyargs]
+                                     if x.annotation is not None and norm(x.annotation).strip("'\"").rsplit(".", 1)[-1] in ERROR_CLASSES}
+        helpers = {g.name: g for g in region(ix, f) if g is not f}
+        for st, reg, key in removals:
+            n_removed += 1
+            knames = names_in(key)
+
+            def names_it(n: object, knames: set[str] = knames, errs: set[str] = errs) -> bool:
+                if not isinstance(n, ast.stmt):
+                    return False
+                # <error>.<text attribute> = / += <... key ...>
+                if isinstance(n, (ast.Assign, ast.AugAssign)):
+                    tgts = n.targets if isinstance(n, ast.Assign) else [n.target]
+                    if any(isinstance(t, ast.Attribute) and isinstance(t.value, ast.Name) and t.value.id in errs for t in tgts) and \
+                            knames <= names_in(n.value):
+                        return True
+                for c in walk_own(n):
+                    if not isinstance(c, ast.Call):
+                        continue
+                    args = [*c.args, *[k.value for k in c.keywords]]
+                    # errors.append(<Error>(... key ...))
+                    if isinstance(c.func, ast.Attribute) and c.func.attr in ("append", "extend") and c.args and constructs_error(c.args[0]) \
+                            and knames <= names_in(c.args[0]):
+                        return True
+                    # a private helper of the same module that is handed the error and the key and writes into an error's text
+                    g = helpers.get(call_name(c).rsplit(".", 1)[-1])
+                    if g is not None and any(isinstance(a_, ast.Name) and a_.id in errs for a_ in args) and \
+                            knames <= {x for a_ in args for x in names_in(a_)}:
+                        gp = {x.arg for x in [*g.node.args.posonlyargs, *g.node.args.args, *g.node.args.kwonlyargs]}
+                        if any(isinstance(m, (ast.Assign, ast.AugAssign)) and any(
+                                isinstance(t, ast.Attribute) and isinstance(t.value, ast.Name) and t.value.id in gp
+                                for t in (m.targets if isinstance(m, ast.Assign) else [m.target])) for m in ast.walk(g.node)):
+                            return True
+                return False
+
+            ok = cfg.is_dominated_by(st, names_it)
+            rep.check(ok, "R07.7", f"{short(f)}::remove {reg}[{anon(key, local_names(f.node))}]",
+                      "a component schema is removed from the registry on a path that does not write its reference into any diagnostic: "
+                      "the schema disappears without being named", where(f, st), lhs=norm(st)[:80],
+                      rhs="dominated by <error>.detail += f'...{key}...' (or an error record built from the key)")
+    rep.floor("accounted_removals", n_removed, 1)
+
+    # ---- R07.8 ---------------------------------------------------------------------------------------------------------------------
+    et = ctx.jinja.templates.get("endpoint_module.py.jinja")
+    rep.require(et, "endpoint_module.py.jinja")
+    frs = [fr for fr in tplq.frags(et.tree.body) if fr.kind == "expr" and fr.text == "endpoint.responses[*].status_code.value"]
+    rep.require(frs, "emission of the status value of each element of endpoint.responses in endpoint_module.py.jinja")
+    in_loop = [fr for fr in frs if "endpoint.responses" in fr.loops]
+    filtered = [n for n in et.tree.find_all(jnodes.For) if expr_text(n.iter) == "endpoint.responses" and n.test is not None and
+                any(fr.node is x for fr in in_loop for x in n.find_all(type(fr.node)))]
+    atoms_: list[str] = []
+    for fr in in_loop:
+        atoms_ += [a_ for a_ in tplq.guard_atoms(fr) if a_ not in atoms_]
+    uncovered = [env for env in tplq.assignments(atoms_) if not any(tplq.guard_holds(fr, {**env}) for fr in in_loop)] if len(atoms_) <= 10 else [{}]
+    rep.check(bool(in_loop) and not filtered and not uncovered, "R07.8", "endpoint_module.py.jinja::status-branch-per-response",
+              "some documented (and parsed) response gets no status branch in the generated function under some template condition: its "
+              "status is treated as undocumented although no warning names it", where=f"{PKG}/templates/{et.name}:{in_loop[0].line if in_loop else frs[0].line}",
+              lhs=[[f"{g}={p_}" for g, p_ in fr.guards] for fr in frs], rhs="emitted for every element of endpoint.responses under every condition")
 
     # ---- R07.5 ---------------------------------------------------------------------------------------------------------------------
     ge = ix.func("Project._get_errors")
@@ -233,6 +285,581 @@ def run(rep: Report, ctx: Any) -> str:
               f"the method list {meth} differs from the Operation fields of PathItem {ops}", where(fd, fd.node), lhs=meth, rhs=ops)
     rep.not_decided.append("the census itself; response media types other than the first supported one are ignored by design")
     return LEVEL
+
+
+# ---- loops over document collections, found by what they iterate -------------------------------------------------------------------
+def _own_walk(node: ast.AST) -> Any:
+    """ast.walk that does not enter nested function definitions (they are analysed as functions of their own)"""
+    stack = [node]
+    while stack:
+        n = stack.pop()
+        yield n
+        for c in ast.iter_child_nodes(n):
+            if isinstance(c, (ast.FunctionDef, ast.AsyncFunctionDef, ast.Lambda, ast.ClassDef)):
+                continue
+            stack.append(c)
+
+
+def _targets(t: ast.AST) -> set[str]:
+    return {n.id for n in ast.walk(t) if isinstance(n, ast.Name)}
+
+
+class _DocTypes:
+    """Which classes of the document model (the `schema` package) an expression of f can hold or contain, from annotations only:
+    parameters, annotated locals, return annotations of the functions called, declared fields of the document classes.  Containers
+    are flattened (`dict[str, PathItem]` and its items both read {PathItem}): enough to tell *what* a loop goes through."""
+
+    def __init__(self, ix: Any, f: Any) -> None:
+        self.ix, self.f = ix, f
+        if not hasattr(ix, "_c07_doc"):
+            names: set[str] = set()
+            classes: dict[str, Any] = {}
+            for name, m in ix.modules.items():
+                if name == f"{PKG}.schema" or name.startswith(f"{PKG}.schema."):
+                    names |= set(m.classes) | set(m.variables) | set(m.var_ann)
+                    classes.update(m.classes)
+            ix._c07_doc = (names, classes)
+        self.names, self.classes = ix._c07_doc
+        a = f.node.args
+        self.params = {x.arg: x.annotation for x in [*a.posonlyargs, *a.args, *a.kwonlyargs]}
+        self.annotated = {n.target.id: n.annotation for n in _own_walk(f.node) if isinstance(n, ast.AnnAssign) and isinstance(n.target, ast.Name)}
+        self.lc = Locals(f.node)
+
+    def mentions(self, ann: ast.AST | None, module: Any = None) -> frozenset[str]:
+        if ann is None:
+            return frozenset()
+        module = module or self.f.module
+        if isinstance(ann, ast.Constant) and isinstance(ann.value, str):
+            try:
+                ann = ast.parse(ann.value, mode="eval").body
+            except SyntaxError:
+                return frozenset()
+        out = set()
+        in_schema = module.name == f"{PKG}.schema" or module.name.startswith(f"{PKG}.schema.")
+        for n in ast.walk(ann):
+            if isinstance(n, ast.Attribute) and n.attr in self.names and isinstance(n.value, ast.Name) and \
+                    module.imports.get(n.value.id, "").startswith(f"{PKG}.schema"):
+                out.add(n.attr)
+            elif isinstance(n, ast.Name) and n.id in self.names and (in_schema or module.imports.get(n.id, "").startswith(f"{PKG}.schema")):
+                out.add(n.id)
+            elif isinstance(n, ast.Constant) and isinstance(n.value, str) and n is not ann:
+                out |= self.mentions(n, module)
+        return frozenset(out)
+
+    def _field(self, cname: str, attr: str) -> frozenset[str]:
+        c = self.classes.get(cname)
+        if c is None:
+            return frozenset()
+        ann = self.ix.all_fields(c).get(attr)
+        return self.mentions(ann, c.module)
+
+    def _returned(self, call: ast.Call, idx: int | None) -> frozenset[str]:
+        last = call_name(call).rsplit(".", 1)[-1]
+        out: set[str] = set()
+        for g in self.ix.all_functions:
+            if g.name != last or g.node.returns is None:
+                continue
+            r = g.node.returns
+            if isinstance(r, ast.Constant) and isinstance(r.value, str):
+                try:
+                    r = ast.parse(r.value, mode="eval").body
+                except SyntaxError:
+                    continue
+            if idx is not None and isinstance(r, ast.Subscript) and norm(r.value) in ("tuple", "Tuple") and isinstance(r.slice, ast.Tuple) \
+                    and idx < len(r.slice.elts):
+                r = r.slice.elts[idx]
+            out |= self.mentions(r, g.module)
+        return frozenset(out)
+
+    def of(self, e: ast.AST | None, depth: int = 5) -> frozenset[str]:
+        if e is None or depth <= 0:
+            return frozenset()
+        if isinstance(e, ast.Name):
+            if e.id in self.params:
+                return self.mentions(self.params[e.id])
+            if e.id in self.annotated and self.mentions(self.annotated[e.id]):
+                return self.mentions(self.annotated[e.id])
+            out: set[str] = set()
+            for kind, _, v in self.lc.defs.get(e.id, []):
+                idx = int(kind[kind.index("[") + 1:kind.index("]")]) if "[" in kind else None
+                if kind.startswith("assign") and isinstance(v, ast.Call) and not self._transparent(v):
+                    out |= self._returned(v, idx)
+                elif kind.startswith(("assign", "for")):
+                    out |= self.of(v, depth - 1)
+            return frozenset(out)
+        if isinstance(e, ast.Attribute):
+            return frozenset(x for c in self.of(e.value, depth) for x in self._field(c, e.attr))
+        if isinstance(e, (ast.Subscript, ast.Starred)):
+            return self.of(e.value, depth)
+        if isinstance(e, ast.BoolOp):
+            return frozenset(x for v in e.values for x in self.of(v, depth))
+        if isinstance(e, ast.IfExp):
+            return self.of(e.body, depth) | self.of(e.orelse, depth)
+        if isinstance(e, ast.Call):
+            if isinstance(e.func, ast.Attribute) and e.func.attr in _VIEWS:
+                return self.of(e.func.value, depth)
+            if call_name(e) in _ELEMENTWISE:
+                return frozenset(x for a_ in e.args for x in self.of(a_, depth))
+            if call_name(e) == "getattr" and e.args:
+                return frozenset(x for c in self.of(e.args[0], depth) if c in self.classes
+                                 for ann in self.ix.all_fields(self.classes[c]).values() for x in self.mentions(ann, self.classes[c].module))
+            return self._returned(e, None)
+        return frozenset()
+
+    @staticmethod
+    def _transparent(c: ast.Call) -> bool:
+        return (isinstance(c.func, ast.Attribute) and c.func.attr in _VIEWS) or call_name(c) in _ELEMENTWISE or call_name(c) == "getattr"
+
+    def sources(self, e: ast.AST, depth: int = 4, idx: int | None = None) -> list[tuple[ast.AST, int | None]]:
+        """what the iterable is, behind views (.items()), element-wise wrappers (enumerate) and the locals it was bound to:
+        (expression, position in the tuple it was unpacked from)"""
+        if isinstance(e, ast.Call) and self._transparent(e) and call_name(e) != "getattr":
+            inner = [e.func.value] if isinstance(e.func, ast.Attribute) and e.func.attr in _VIEWS else list(e.args)
+            return [x for i in inner for x in self.sources(i, depth, idx)]
+        if isinstance(e, ast.BoolOp):
+            return [x for v in e.values for x in self.sources(v, depth, idx)]
+        if isinstance(e, ast.Name) and e.id not in self.params and depth > 0:
+            out = []
+            for kind, _, v in self.lc.defs.get(e.id, []):
+                if kind.startswith("assign") and v is not None:
+                    i = int(kind[kind.index("[") + 1:kind.index("]")]) if "[" in kind else None
+                    out += self.sources(v, depth - 1, i)
+            return out or [(e, idx)]
+        return [(e, idx)]
+
+
+_CONTAINERS = ("dict", "Dict", "list", "List", "Mapping", "Sequence", "Iterable", "Optional", "Union", "set", "Set", "tuple", "Tuple")
+
+
+def _is_collection_annotation(ann: ast.AST | None) -> bool:
+    """dict[...] / list[...] / Iterable[...] (possibly Optional): the parameter *is* a collection, not an object that has one"""
+    if isinstance(ann, ast.Subscript):
+        head = norm(ann.value).rsplit(".", 1)[-1]
+        if head in ("Optional", "Union"):
+            parts = ann.slice.elts if isinstance(ann.slice, ast.Tuple) else [ann.slice]
+            return any(_is_collection_annotation(p_) for p_ in parts)
+        return head in _CONTAINERS
+    if isinstance(ann, ast.BinOp) and isinstance(ann.op, ast.BitOr):
+        return _is_collection_annotation(ann.left) or _is_collection_annotation(ann.right)
+    return False
+
+
+# The items the property enumerates, each recognised by what the loop goes through (classes / aliases / attributes of the document
+# model, never the function the loop happens to live in).
+# registries whose entries are items the property enumerates (component schemas, keyed by their reference in the document)
+ACCOUNTED_REGISTRIES = {"classes_by_reference"}
+
+
+def _removals(fn: ast.AST, regs: set[str]) -> list[tuple[ast.stmt, str, ast.expr]]:
+    """(statement, registry, key) of every `del <...>.reg[K]` / `<...>.reg.pop(K)` in fn"""
+    out = []
+    for st in _own_walk(fn):
+        if isinstance(st, ast.Delete):
+            for t in st.targets:
+                if isinstance(t, ast.Subscript) and isinstance(t.value, ast.Attribute) and t.value.attr in regs:
+                    out.append((st, t.value.attr, t.slice))
+        elif isinstance(st, ast.stmt):
+            for c in walk_own(st):
+                if isinstance(c, ast.Call) and isinstance(c.func, ast.Attribute) and c.func.attr in ("pop", "popitem") and \
+                        isinstance(c.func.value, ast.Attribute) and c.func.value.attr in regs and c.args:
+                    out.append((st, c.func.value.attr, c.args[0]))
+    return out
+
+
+OPERATIONS, SCHEMAS, STATUSES, MEDIA = "operations", "component schemas", "response statuses", "request media types"
+ENUMERATED = (OPERATIONS, SCHEMAS, STATUSES, MEDIA)
+WORK_LISTS = {"models_to_process": SCHEMAS}  # attribute holding items that await a further pass
+
+
+def _classify(lp: ast.For, T: _DocTypes, accumulators: dict[str, dict[int | None, str]]) -> str | None:
+    held = T.of(lp.iter)
+    tg = _targets(lp.target)
+    if "PathItem" in held:
+        return OPERATIONS
+    for s in lp.body:
+        for c in _own_walk(s):
+            if isinstance(c, ast.Call) and call_name(c) == "getattr" and len(c.args) >= 2 and isinstance(c.args[1], ast.Name) and \
+                    c.args[1].id in tg and "PathItem" in T.of(c.args[0]):
+                return OPERATIONS
+    if "Responses" in held:
+        return STATUSES
+    for src, idx in T.sources(lp.iter):
+        if isinstance(src, ast.Attribute) and src.attr == "content" and "RequestBody" in T.of(src.value):
+            return MEDIA
+        if isinstance(src, ast.Attribute) and src.attr in WORK_LISTS:
+            return WORK_LISTS[src.attr]
+        if isinstance(src, ast.Name) and src.id in T.params and _is_collection_annotation(T.params[src.id]):
+            m = T.mentions(T.params[src.id])
+            if "Schema" in m:
+                return SCHEMAS
+            if m:
+                return "components: " + "/".join(sorted(m - {"Reference", "ReferenceOr"}))
+        if isinstance(src, ast.Call):
+            acc = accumulators.get(call_name(src).rsplit(".", 1)[-1], {})
+            if idx in acc:
+                return acc[idx]
+            if None in acc and idx is None:
+                return acc[None]
+    if "Parameter" in held:
+        return "parameters"
+    return None
+
+
+def document_loops(ix: Any) -> dict[Any, dict[ast.For, str]]:
+    """function -> its `for` statements that go through items of the document, each with the kind of item.  A loop is recognised by what
+    it iterates: a value whose declared type is a collection of the document model (path items and the operation fields selected from
+    them, `Responses`, the `content` of a request body, a collection parameter of schemas / parameters), a work list of such items,
+    or the list of outcomes that another function accumulated while going through one of these (one outcome per item)."""
+    if hasattr(ix, "_c07_loops"):
+        return ix._c07_loops
+    funcs = [f for f in ix.all_functions if f.module.name.startswith(f"{PKG}.parser") or f.module.name == PKG]
+    out: dict[Any, dict[ast.For, str]] = {}
+    accumulators: dict[str, dict[int | None, str]] = {}
+    for _ in range(3):  # outcomes of outcomes: a short chain, until nothing new is found
+        before = (sum(len(v) for v in out.values()), sum(len(v) for v in accumulators.values()))
+        for f in funcs:
+            T = _DocTypes(ix, f)
+            for lp in [n for n in _own_walk(f.node) if isinstance(n, ast.For)]:
+                if lp in out.get(f, {}):
+                    continue
+                kind = _classify(lp, T, accumulators)
+                if kind is not None:
+                    out.setdefault(f, {})[lp] = kind
+            # lists this function fills inside such a loop and returns
+            for lp, kind in out.get(f, {}).items():
+                filled = {norm(c.func.value) for s in lp.body for c in _own_walk(s) if isinstance(c, ast.Call) and
+                          isinstance(c.func, ast.Attribute) and c.func.attr in ("append", "extend") and isinstance(c.func.value, ast.Name)}
+                for r in _own_walk(f.node):
+                    if isinstance(r, ast.Return) and r.value is not None:
+                        if isinstance(r.value, ast.Name) and r.value.id in filled:
+                            accumulators.setdefault(f.name, {})[None] = kind
+                        if isinstance(r.value, ast.Tuple):
+                            for i, el in enumerate(r.value.elts):
+                                if isinstance(el, ast.Name) and el.id in filled:
+                                    accumulators.setdefault(f.name, {})[i] = kind
+        if before == (sum(len(v) for v in out.values()), sum(len(v) for v in accumulators.values())):
+            break
+    ix._c07_loops = out
+    return out
+
+
+def _is_error_type(t: ast.AST) -> bool:
+    parts = t.elts if isinstance(t, ast.Tuple) else [t]
+    return bool(parts) and all((dotted_name(x) or "").rsplit(".", 1)[-1] in ERROR_CLASSES for x in parts)
+
+
+def dotted_name(e: ast.AST) -> str:
+    if isinstance(e, ast.Name):
+        return e.id
+    if isinstance(e, ast.Attribute):
+        return f"{dotted_name(e.value)}.{e.attr}"
+    return ""
+
+
+def _iter_attrs(e: ast.AST, fn: ast.AST, depth: int = 3) -> set[str]:
+    """attribute names on the access path of the iterable, through the locals it is bound from"""
+    lc = Locals(fn)
+    out: set[str] = set()
+    seen: set[str] = set()
+    frontier = [e]
+    for _ in range(depth):
+        nxt: list[ast.AST] = []
+        for x in frontier:
+            for n in ast.walk(x):
+                if isinstance(n, ast.Attribute):
+                    out.add(n.attr)
+                if isinstance(n, ast.Name) and n.id not in seen:
+                    seen.add(n.id)
+                    nxt += [v for k, _, v in lc.defs.get(n.id, []) if k == "assign" and v is not None]
+        frontier = nxt
+    return out
+
+
+# ---- what happens to the item on each path through one iteration -------------------------------------------------------------------
+class _S:
+    """facts that hold on the paths reaching a program point inside one iteration"""
+    __slots__ = ("rec", "keep", "pend", "absent", "err", "ok", "none")
+
+    def __init__(self, rec: bool = False, keep: bool = False, pend: bool = False, absent: bool = False,
+                 err: frozenset = frozenset(), ok: frozenset = frozenset(), none: frozenset = frozenset()) -> None:
+        self.rec, self.keep, self.pend, self.absent, self.err, self.ok, self.none = rec, keep, pend, absent, err, ok, none
+
+    def key(self) -> tuple:
+        return (self.rec, self.keep, self.pend, self.absent, self.err, self.ok, self.none)
+
+    def __hash__(self) -> int:
+        return hash(self.key())
+
+    def __eq__(self, o: object) -> bool:
+        return isinstance(o, _S) and self.key() == o.key()
+
+    def but(self, **kw: Any) -> "_S":
+        d = {k: getattr(self, k) for k in self.__slots__}
+        d.update(kw)
+        return _S(**d)
+
+
+class _Iteration:
+    """Path-sensitive walk over the body of a document loop.  Tracked per path: whether a diagnostic has been recorded (`rec`), whether
+    something derived from the item has been stored where it outlives the iteration (`keep`), whether a value is known to be an error
+    and has not been recorded since (`pend`), whether the item is known to be an empty slot (`absent`), and which names are known (not)
+    to hold an error / None - so that a test repeated later on the path is decided the same way (infeasible branches are not walked).
+    The shape of the code (early continue or nested if/else, which branch comes first) does not matter: only the paths do."""
+
+    def __init__(self, f: Any, loops: dict[ast.For, str]) -> None:
+        self.f = f
+        self.fn = f.node
+        self.loops = loops
+        self.errs = error_names(f.node)
+        self.lc = Locals(f.node)
+        # collections an item is recorded into, one record each: a local bound to a comprehension of setdefault(...) results
+        self.fan_out = set(self.lc.bound_from(lambda v: ".setdefault(" in v and v.startswith("["), "assign"))
+        self.ends: dict[int, tuple[ast.AST, set[_S]]] = {}
+        self.helpers: dict[str, Any] = {}
+
+    # -- the loop under analysis
+    def run(self, lp: ast.For) -> list[tuple[ast.AST, set[_S]]]:
+        self.lp = lp
+        self.ends = {}
+        tg = _targets(lp.target)
+        inside = {id(n) for s in lp.body for n in _own_walk(s)}
+        # names that carry something of the current item: the loop variables and every local bound, inside the body, from such a name
+        dep = set(tg)
+        changed = True
+        while changed:
+            changed = False
+            for name, ds in self.lc.defs.items():
+                if name in dep:
+                    continue
+                if any(id(st) in inside and v is not None and names_in(v) & dep for _, st, v in ds):
+                    dep.add(name)
+                    changed = True
+        self.dep = dep
+        # names that exist beyond one iteration: parameters and locals with a binding outside the body
+        a = self.fn.args
+        self.outer = {x.arg for x in [*a.posonlyargs, *a.args, *a.kwonlyargs]} | \
+            {name for name, ds in self.lc.defs.items() if any(id(st) not in inside and st is not lp for _, st, _v in ds)}
+        # slots: locals only ever bound by selecting, with the loop variable, a field / key of some object
+        self.slots = {name for name, ds in self.lc.defs.items() if ds and all(self._selects(v, tg) for _, _, v in ds)}
+        out = self._seq(lp.body, {_S()})
+        self._end(lp, out)
+        return sorted(self.ends.values(), key=lambda e: (getattr(e[0], "lineno", 0) if e[0] is not lp else 10 ** 9))
+
+    @staticmethod
+    def _selects(v: ast.AST | None, tg: set[str]) -> bool:
+        if isinstance(v, ast.Call) and call_name(v) == "getattr" and len(v.args) >= 2:
+            return isinstance(v.args[1], ast.Name) and v.args[1].id in tg
+        if isinstance(v, ast.Call) and isinstance(v.func, ast.Attribute) and v.func.attr == "get" and v.args:
+            return isinstance(v.args[0], ast.Name) and v.args[0].id in tg
+        if isinstance(v, ast.Subscript):
+            return isinstance(v.slice, ast.Name) and v.slice.id in tg
+        return False
+
+    def _end(self, at: ast.AST, states: set[_S]) -> None:
+        if states:
+            self.ends.setdefault(id(at), (at, set()))[1].update(states)
+
+    # -- statements
+    def _seq(self, body: list[ast.stmt], states: set[_S]) -> set[_S]:
+        for st in body:
+            if not states:
+                break
+            states = self._stmt(st, states)
+        return states
+
+    def _stmt(self, st: ast.stmt, states: set[_S]) -> set[_S]:
+        if isinstance(st, ast.If):
+            t: set[_S] = set()
+            e: set[_S] = set()
+            for s in states:
+                t |= self._refine(st.test, s, True)
+                e |= self._refine(st.test, s, False)
+            return self._seq(st.body, t) | (self._seq(st.orelse, e) if st.orelse else e)
+        if isinstance(st, (ast.For, ast.AsyncFor, ast.While)):
+            return self._inner_loop(st, states)
+        if isinstance(st, ast.Try):
+            out = self._seq(st.body, states)
+            if st.orelse:
+                out = self._seq(st.orelse, out)
+            for h in st.handlers:
+                # the exception may have been raised anywhere in the body: what held before it is all that is known
+                out |= self._seq(h.body, {self._kill(s, {h.name} if h.name else set()) for s in states})
+            return self._seq(st.finalbody, out) if st.finalbody else out
+        if isinstance(st, (ast.With, ast.AsyncWith)):
+            return self._seq(st.body, {self._simple(st, s) for s in states})
+        if isinstance(st, ast.Match):
+            out2: set[_S] = set(states)
+            for c in st.cases:
+                out2 |= self._seq(c.body, states)
+            return out2
+        if isinstance(st, ast.Continue):
+            self._end(st, states)
+            return set()
+        if isinstance(st, ast.Break):
+            self._end(st, states)
+            return set()
+        if isinstance(st, ast.Return):
+            if returns_error(st, self.errs) or (isinstance(st.value, ast.Name) and any(st.value.id in s.err for s in states)):
+                self._end(st, {s.but(rec=True, pend=False) for s in states})
+            else:
+                self._end(st, states)
+            return set()
+        if isinstance(st, ast.Raise):
+            return set()  # loud: the run stops with an exception
+        if isinstance(st, (ast.FunctionDef, ast.AsyncFunctionDef, ast.ClassDef)):
+            return states
+        return {self._simple(st, s) for s in states}
+
+    def _inner_loop(self, st: ast.stmt, states: set[_S]) -> set[_S]:
+        if isinstance(st, ast.For) and st in self.loops:
+            # its items are accounted for on their own: for the enclosing iteration the nested document loop is where the item goes
+            return {self._kill(s, _targets(st.target)).but(keep=True) for s in states}
+        saved_ends = self.ends
+        once_at_least = isinstance(st, ast.For) and norm(st.iter) in self.fan_out
+        reached: set[_S] = set() if once_at_least else set(states)
+        exits: set[_S] = set()
+        frontier = set(states)
+        seen: set[_S] = set()
+        while frontier:
+            frontier -= seen
+            seen |= frontier
+            self.ends = {}
+            entry = {self._kill(s, _targets(st.target)) if isinstance(st, ast.For) else s for s in frontier}
+            if isinstance(st, ast.While):
+                entry = {x for s in entry for x in self._refine(st.test, s, True)}
+            out = self._seq(st.body, entry)
+            nxt: set[_S] = set(out)
+            for node, ss in self.ends.values():
+                if isinstance(node, ast.Continue):
+                    nxt |= ss
+                elif isinstance(node, ast.Break):
+                    exits |= ss
+                else:  # return: ends the iteration of the loop under analysis as well
+                    saved_ends.setdefault(id(node), (node, set()))[1].update(ss)
+            reached |= nxt
+            frontier = nxt - seen
+        self.ends = saved_ends
+        after = reached | exits
+        if getattr(st, "orelse", None):
+            after = self._seq(st.orelse, reached) | exits
+        return after
+
+    # -- facts
+    def _kill(self, s: _S, names: set[str]) -> _S:
+        if not names or not ((s.err | s.ok | s.none) & names):
+            return s
+        return s.but(err=s.err - names, ok=s.ok - names, none=s.none - names)
+
+    def _is_error_value(self, e: ast.AST, s: _S) -> bool:
+        if constructs_error(e):
+            return True
+        if isinstance(e, ast.Name):
+            # known to hold an error on this path, or somewhere in the function and not known otherwise here
+            return e.id in s.err or (e.id in self.errs and e.id not in s.ok)
+        if isinstance(e, ast.Tuple):
+            return any(isinstance(x, ast.Name) and self._is_error_value(x, s) for x in e.elts)
+        return False
+
+    def _outlives(self, recv: ast.AST) -> bool:
+        """the container lives beyond the iteration: a field of some object, or a local that exists outside the loop body"""
+        if isinstance(recv, ast.Name):
+            return recv.id in self.outer
+        return isinstance(recv, (ast.Attribute, ast.Subscript))
+
+    def _helper_effects(self, c: ast.Call, s: _S) -> tuple[bool, bool]:
+        """(records, keeps) for a call to a private helper of the same module / class (astutil.region): the call is the place where the
+        helper's effects happen - a helper that appends an error to a list records, one that appends something of its parameters keeps"""
+        g = self.helpers.get(call_name(c).rsplit(".", 1)[-1])
+        if g is None:
+            return False, False
+        args = [*c.args, *[k.value for k in c.keywords]]
+        gerrs = error_names(g.node) | {x.arg for x in [*g.node.args.posonlyargs, *g.node.args.args, *g.node.args.kwonlyargs]
+                                      if x.annotation is not None and norm(x.annotation).strip("'\"").rsplit(".", 1)[-1] in ERROR_CLASSES}
+        gparams = {x.arg for x in [*g.node.args.posonlyargs, *g.node.args.args, *g.node.args.kwonlyargs]}
+        rec = keep = False
+        for m in _own_walk(g.node):
+            if isinstance(m, ast.Call) and isinstance(m.func, ast.Attribute) and m.func.attr in ("append", "extend") and m.args:
+                a0 = m.args[0]
+                if constructs_error(a0) or (isinstance(a0, ast.Name) and a0.id in gerrs):
+                    rec = True
+                elif names_in(a0) & gparams:
+                    keep = True
+        passes_item = any(names_in(a_) & self.dep for a_ in args)
+        passes_error = any(self._is_error_value(a_, s) for a_ in args) or not s.pend
+        return rec and passes_item and passes_error, keep and passes_item
+
+    def _simple(self, st: ast.stmt, s: _S) -> _S:
+        rec, keep = False, False
+        for c in walk_own(st):
+            if isinstance(c, ast.Call) and self.helpers:
+                r_, k_ = self._helper_effects(c, s)
+                rec, keep = rec or r_, keep or k_
+            if isinstance(c, ast.Call) and isinstance(c.func, ast.Attribute) and c.func.attr in ("append", "extend", "insert") and c.args:
+                arg = c.args[-1] if c.func.attr == "insert" else c.args[0]
+                if c.func.attr != "insert" and self._is_error_value(arg, s):
+                    rec = True
+                elif names_in(arg) & self.dep and self._outlives(c.func.value):
+                    keep = True
+        if isinstance(st, ast.Assign):
+            for t in st.targets:
+                if isinstance(t, ast.Subscript) and names_in(st.value) & self.dep and self._outlives(t.value):
+                    keep = True  # <collection>[key] = <something of the item>
+                if isinstance(t, ast.Name) and t.id in self.outer and isinstance(st.value, ast.Name) and st.value.id in s.ok \
+                        and st.value.id in self.dep:
+                    keep = True  # the item's outcome, verified not to be an error on this path, becomes the state carried on
+        bound = {n.id for n in walk_own(st) if isinstance(n, ast.Name) and isinstance(n.ctx, ast.Store)}
+        out = self._kill(s, bound)
+        if rec:
+            out = out.but(rec=True, pend=False)
+        if keep:
+            out = out.but(keep=True)
+        return out
+
+    def _refine(self, test: ast.expr, s: _S, want: bool) -> set[_S]:
+        """states in which `test` evaluates to `want` (empty: infeasible on this path)"""
+        if isinstance(test, ast.UnaryOp) and isinstance(test.op, ast.Not):
+            return self._refine(test.operand, s, not want)
+        if isinstance(test, ast.BoolOp):
+            conj = isinstance(test.op, ast.And)
+            if conj == want:  # all operands have the value `want`
+                cur = {s}
+                for v in test.values:
+                    cur = {y for x in cur for y in self._refine(v, x, want)}
+                return cur
+            # some operand has the value `want`: the first one that does, the ones before it do not
+            out: set[_S] = set()
+            cur = {s}
+            for v in test.values:
+                out |= {y for x in cur for y in self._refine(v, x, want)}
+                cur = {y for x in cur for y in self._refine(v, x, not want)}
+            return out
+        if isinstance(test, ast.Call) and call_name(test) == "isinstance" and len(test.args) == 2 and isinstance(test.args[0], ast.Name):
+            n = test.args[0].id
+            parts = test.args[1].elts if isinstance(test.args[1], ast.Tuple) else [test.args[1]]
+            is_err = [(dotted_name(x) or "").rsplit(".", 1)[-1] in ERROR_CLASSES for x in parts]
+            if all(is_err):
+                if want:
+                    if n in s.ok or n in s.none:
+                        return set()
+                    return {s if n in s.err else s.but(err=s.err | {n}, pend=True)}
+                if n in s.err:
+                    return set()
+                return {s.but(ok=s.ok | {n})}
+            if not any(is_err) and want:
+                # an instance of a class that is not an error class (error classes have no subclasses among the document's artefacts)
+                return set() if n in s.err else {s}
+            return {s}
+        if isinstance(test, ast.Compare) and len(test.ops) == 1 and isinstance(test.left, ast.Name) and \
+                isinstance(test.comparators[0], ast.Constant) and test.comparators[0].value is None and \
+                isinstance(test.ops[0], (ast.Is, ast.IsNot)):
+            n = test.left.id
+            is_none = want == isinstance(test.ops[0], ast.Is)
+            if is_none:
+                if n in s.err:
+                    return set()
+                return {s.but(none=s.none | {n}, absent=s.absent or n in self.slots)}
+            return set() if n in s.none else {s}
+        return {s}
 
 
 def _innermost_if(loop: ast.AST, st: ast.AST) -> ast.If | None:
